@@ -61,6 +61,18 @@ CLAIMS = {
              "innermost frame.  Partial: rule bodies are not modelled (crash-freedom of the 58 rules is searched, not proved).",
         ref="DESIGN.md 4.5", technique="Rocq proof (lexer termination, generic loop progress) + differential lexing + crash search",
         note=NOTE + "Modelled: lexer.py completely, Registry.run generically (rules = oracle). Not modelled: rule bodies, Context helpers."),
+    "C06": dict(
+        text="Theorems: the order in which the primaries run and in which the checks of a statement run is the same for every "
+             "permutation of the discovered rule classes (sort model; distinctness of the 19 priorities proved on the table "
+             "regenerated from rules/*.py; the two sorted(...) calls and the live order are tied by generated tables); the list of "
+             "syntactic sites that can touch state outliving one file (module-level objects, class attributes assigned at run "
+             "time, global, process-level setters, mutable defaults), regenerated by the translator on every run, equals the "
+             "reviewed list.  That the real process behaves like the memoryless model is the correspondence: every file alone in "
+             "a fresh interpreter vs after histories of length 1..3 (clean, erroneous, fatal, other type, deep #if, deeply nested) in "
+             "one process, twice, reversed, and under shuffled os.listdir.  Partial: the shared-state table is a static analysis, "
+             "and interpreter state (recursion limit, import order) is exercised, not modelled.",
+        ref="DESIGN.md 4.6", technique="Rocq proof (sort-order invariance, static shared-state table) + history/permutation differential runs",
+        note=NOTE + "Trusted: sorted() is stable and correct on distinct keys. Not modelled: interpreter state; rule bodies."),
     "C07": dict(
         text="Theorems for ANY rule set whose matching primaries consume >= 1 token (the oracle of Model/Engine.v): a run that ends "
              "normally splits the tokens into consecutive, non-empty statements covering the whole stream; without -d such a run "
